@@ -92,7 +92,7 @@ impl Deserializable for WDigest {
 }
 fn wide_post(mode: u8, w: u64) -> u64 {
     match mode {
-        0 => w,
+        0 | 4 => w,
         1 => if w & 3 == 3 { w | 0xFFFF_FFFF_0000_0000 } else { w },
         2 => if w & 7 == 7 { u64::MAX } else { w },
         _ => if w & 1023 == 0 { w } else { u64::MAX },
@@ -120,6 +120,11 @@ impl<B: StarkField, const MODE: u8> Hasher for WideToy<B, MODE> {
         wide_hash(MODE, &b)
     }
     fn merge_with_int(seed: WDigest, value: u64) -> WDigest {
+        // mode 4: inadmissible (all-ones) digest below T(seed) = 998 + seed.word0 % 5: first admissible candidate of a
+        // draw sits right at the 1000-try limit
+        if MODE == 4 && value < 998 + seed.0[0] % 5 {
+            return WDigest([u64::MAX; 4]);
+        }
         let mut b = Vec::with_capacity(40);
         b.extend_from_slice(&seed.bytes());
         b.extend_from_slice(&value.to_le_bytes());
@@ -214,6 +219,7 @@ fn run_case(hasher: &str, field: &str, seed: &[u128], ops: &[Op]) -> String {
         "w0" => run_corr::<$b, WideToy<$b, 0>>(seed, ops),
         "w1" => run_corr::<$b, WideToy<$b, 1>>(seed, ops),
         "w2" => run_corr::<$b, WideToy<$b, 2>>(seed, ops),
+        "w4" => run_corr::<$b, WideToy<$b, 4>>(seed, ops),
         _ => run_corr::<$b, WideToy<$b, 3>>(seed, ops),
     } } }
     match field {
@@ -323,6 +329,12 @@ fn boundary_cases() -> Vec<(String, String, Vec<u128>, Vec<Op>)> {
     for d in 1..=3u8 {
         push("w3", vec![Op::Draw(d), Op::Lz(1), Op::Draw(1), Op::Reseed(vec![5, 6, 7, 8]), Op::Draw(1)], 4, &mut v);
     }
+    // w4: the first admissible candidate is at counter 998..1002 (depends on the seed): draw succeeds at exactly the
+    // 1000th try or fails by one; the draw after a failure continues from counter 1000
+    for t in 0..30u64 {
+        let d = 1 + (t % 3) as u8;
+        push("w4", vec![Op::Draw(d), Op::Lz(1), Op::Draw(1), Op::Draw(d), Op::Reseed(vec![t, 6, 7, 8]), Op::Draw(1), Op::Ints(3, 8, 5), Op::Draw(d)], (t % 7) as usize, &mut v);
+    }
     // nonce search
     for gf in 0..=8u32 {
         push("toy", vec![Op::Grind(gf, 600), Op::Draw(1), Op::Reseed(vec![gf as u64; 4]), Op::Grind(gf, 600)], 2, &mut v);
@@ -338,7 +350,7 @@ fn corr(seed: u64, n: usize) {
     let mut heavy_left = (n / 100).max(2);
     while cases.len() < nb + n {
         let f = ["f64", "f62", "f128"][r.below(3) as usize];
-        let mut h = ["toy", "toy", "toy", "toy", "w0", "w0", "w1", "w1", "w2", "w3"][r.below(10) as usize];
+        let mut h = ["toy", "toy", "toy", "toy", "w0", "w0", "w1", "w4", "w2", "w3"][r.below(10) as usize];
         if h == "w3" {
             if heavy_left == 0 { h = "w1"; } else { heavy_left -= 1; }
         }
@@ -663,7 +675,54 @@ fn falsify(seed: u64, n: usize) {
     falsify_h::<f62::BaseElement, Rp62_248>("Rp62_248", &mut r, per, &mut rep);
     falsify_h::<f64::BaseElement, Rp64_256>("Rp64_256", &mut r, per, &mut rep);
     falsify_h::<f64::BaseElement, RpJive64_256>("RpJive64_256", &mut r, per, &mut rep);
+    shape(&mut rep);
     println!("evaluations={} failures={}", rep.evals, rep.fails);
+}
+
+// ================================================================================================ shape ambiguity replay
+/// Documented observation (not a failure): the hashers do not separate hash_elements from merge, so the coin
+/// new(E) with bytes(E) = to_bytes(hash_elements(E')) || to_bytes(d) is in the same state as new(E').reseed(d).
+fn shape_h<B: Fld, H: ElementHasher<BaseField = B>>(name: &str, rep: &mut Report) {
+    rep.evals += 1;
+    for t in 0u32..64 {
+        let e2: Vec<B> = vec![B::from_u128(1 + t as u128), B::from_u128(2), B::from_u128(3)];
+        let s = H::hash_elements(&e2);
+        let d = H::hash(&[t as u8, 7, 7]);
+        let mut bytes = s.to_bytes();
+        bytes.extend_from_slice(&d.to_bytes());
+        if bytes.len() % B::EB != 0 {
+            eprintln!("shape {} {} not-applicable (digest size)", name, B::NAME);
+            return;
+        }
+        let ints: Vec<u128> = bytes.chunks(B::EB).map(|ch| { let mut b = [0u8; 16]; b[..ch.len()].copy_from_slice(ch); u128::from_le_bytes(b) }).collect();
+        if ints.iter().any(|&v| v >= B::M) { continue; }
+        let e1: Vec<B> = ints.iter().map(|&v| B::from_u128(v)).collect();
+        let mut a = DefaultRandomCoin::<H>::new(&e1);
+        let mut b = DefaultRandomCoin::<H>::new(&e2);
+        b.reseed(d);
+        let xa: Vec<u128> = (0..3).map(|_| a.draw::<B>().unwrap().int()).collect();
+        let xb: Vec<u128> = (0..3).map(|_| b.draw::<B>().unwrap().int()).collect();
+        let ia = a.draw_integers(5, 64, 9).unwrap();
+        let ib = b.draw_integers(5, 64, 9).unwrap();
+        let same = xa == xb && ia == ib;
+        eprintln!("shape {} {} new({} elements) vs new(3 elements).reseed(d): same_outputs={}", name, B::NAME, e1.len(), same);
+        if same {
+            rep.fail("history shape ambiguity: new(E) and new(E').reseed(d) are the same coin although seed and reseed data differ (no domain separation between hash_elements and merge; no hash collision involved)",
+                     format!("{} {} E={} E'={} d={}", name, B::NAME, hexlist128(&ints), hexlist128(&e2.iter().map(|x| x.int()).collect::<Vec<_>>()), wf_harness::hex_bytes(&d.to_bytes())),
+                     "different subsequent outputs".into(), format!("identical: draws {:x?} integers {:?}", xa, ia));
+        }
+        return;
+    }
+    eprintln!("shape {} {} no admissible encoding found", name, B::NAME);
+}
+fn shape(rep: &mut Report) {
+    shape_h::<f128::BaseElement, Blake3_256<f128::BaseElement>>("Blake3_256", rep);
+    shape_h::<f64::BaseElement, Blake3_256<f64::BaseElement>>("Blake3_256", rep);
+    shape_h::<f64::BaseElement, Blake3_192<f64::BaseElement>>("Blake3_192", rep);
+    shape_h::<f128::BaseElement, Sha3_256<f128::BaseElement>>("Sha3_256", rep);
+    shape_h::<f64::BaseElement, Rp64_256>("Rp64_256", rep);
+    shape_h::<f64::BaseElement, RpJive64_256>("RpJive64_256", rep);
+    shape_h::<f62::BaseElement, Rp62_248>("Rp62_248", rep);
 }
 
 fn main() {
@@ -674,6 +733,7 @@ fn main() {
     match a.get(1).map(|s| s.as_str()) {
         Some("corr") => corr(seed, n),
         Some("falsify") => falsify(seed, n),
-        _ => { eprintln!("usage: c19 corr|falsify <seed> <n>"); std::process::exit(2); }
+        Some("shape") => { let mut rep = Report { evals: 0, fails: 0 }; shape(&mut rep); println!("evaluations={} failures={}", rep.evals, rep.fails); }
+        _ => { eprintln!("usage: c19 corr|falsify <seed> <n> | c19 shape"); std::process::exit(2); }
     }
 }
